@@ -539,7 +539,7 @@ func C09(r *ck.Run) {
 	if r.Thorough() {
 		depth = 5
 	}
-	r.Rule(fmt.Sprintf("breadth-first search over every program of length <= %d of put / refused put (short body) / refused multipart completion (wrong object checksum) / delete / delete-by-version (newest, oldest, middle, null, a delete marker, unknown id) / copy / copy-by-version / multipart-complete / suspend / enable on two keys, from a fresh versioning-enabled bucket, from a bucket whose object predates enabling (null version) from a bucket whose key has a version plus a newer null version written while suspended, and from a Suspended bucket whose key has a version, on a real posix backend with versioning directory (xattr and sidecar metadata); a state is the shortest program reaching it, successors are computed by replay, states are deduplicated on (reference version model with ids canonicalised, file counts); after EVERY step a second backend instance checks GET by key, GET and HEAD by every version id, and ListObjectVersions with max-keys 1, 2, 1000 following the returned markers against the reference model; distinct = distinct state", depth))
+	r.Rule(fmt.Sprintf("breadth-first search over every program of length <= %d of put / refused put (short body) / refused multipart completion (wrong object checksum) / delete / delete-by-version (newest, oldest, middle, null, a delete marker, unknown id) / copy / copy-by-version / multipart-complete / suspend / enable on two keys, from a fresh versioning-enabled bucket, from a bucket whose object predates enabling (null version) from a bucket whose key has a version plus a newer null version written while suspended, and from a Suspended bucket whose key has a version, on a real posix backend with versioning directory (xattr and sidecar metadata); a state is the shortest program reaching it, successors are computed by replay, states are deduplicated on (reference version model with ids canonicalised, file counts); after EVERY step a second backend instance checks GET by key, GET and HEAD by every version id, and ListObjectVersions with max-keys 1, 2, 1000 following the returned markers against the reference model; plus paged ListObjectVersions walks (max-keys 1, 2, 3) over key sets in which a sibling sorts before '/' with null versions, id versions and both: the walk ends and yields every version exactly once; distinct = distinct state", depth))
 	r.Assume("operations are at least one clock tick apart (file mtimes are pinned to a logical clock after each step); a DELETE without id of a key that has no versions may or may not create a marker (the answer says which); deleting an unknown version id may fail or be a no-op")
 	cfgs := []pxCfg{{Versioning: true}, {Versioning: true, Sidecar: true}}
 	if r.Thorough() {
@@ -551,6 +551,9 @@ func C09(r *ck.Run) {
 		for ci, cfg := range cfgs {
 			st := newPxStore("c09", cfg)
 			c := &c09Runner{st: st, vals: vals, r: r}
+			if r.ShardI <= 0 {
+				c09ListingTraps(r, st, cfg.String())
+			}
 			for start := 0; start < 4; start++ {
 				type node struct{ hist []int }
 				// replay returns the model after hist, or ok=false if an anomaly was reported on the way
@@ -700,6 +703,93 @@ func C09(r *ck.Run) {
 		}
 	})
 	r.Sample(map[string]any{"program": []string{"put(k1,v1)", "put(k1,v2)", "delete(k1)", "delete(k1,version=newest)"}, "checks": "GET by key/version, HEAD by version, ListObjectVersions max-keys 1,2,1000"})
+}
+
+// c09ListingTraps: paged ListObjectVersions over key sets in which a sibling sorts before '/' (d.z beside d/x): the
+// walk that follows the returned markers ends and yields every (key, version id) exactly once, for null versions
+// (objects that predate enabling) and for id versions.
+func c09ListingTraps(r *ck.Run, st *pxStore, cfgName string) {
+	vals := []wval{mkval(0), mkval(1)}
+	for _, keys := range [][]string{{"d/x", "d/y", "d.z"}, {"d/x", "d-1", "d!x", "d"}, {"a/b/c", "a/b.c", "a/b", "a.b"}} {
+		for _, mode := range []string{"null-versions", "id-versions", "null-and-id-versions"} {
+			st.wipe()
+			acl := []byte(`{"Owner":"acc1","Grantees":[]}`)
+			if err := st.A.CreateBucket(st.ctx(), &s3.CreateBucketInput{Bucket: sp(c09Bucket)}, acl); err != nil {
+				ck.Fatal("create bucket: %v", err)
+			}
+			want := map[string]int{}
+			usable := keys
+			if mode != "id-versions" {
+				usable = nil
+				for _, k := range keys {
+					if err := st.put(st.A, c09Bucket, k, vals[0]); err != nil {
+						continue // a key that cannot exist beside the others (file vs directory)
+					}
+					usable = append(usable, k)
+					want[k+"|null"]++
+				}
+			}
+			if err := st.A.PutBucketVersioning(st.ctx(), c09Bucket, types.BucketVersioningStatusEnabled); err != nil {
+				ck.Fatal("enable: %v", err)
+			}
+			if mode != "null-versions" {
+				for _, k := range usable {
+					out, err := st.A.PutObject(st.ctx(), s3response.PutObjectInput{Bucket: sp(c09Bucket), Key: sp(k), Body: bytes.NewReader(vals[1].Body), ContentLength: i64(int64(len(vals[1].Body)))})
+					if err != nil {
+						continue
+					}
+					want[k+"|"+out.VersionID]++
+				}
+			}
+			for _, max := range []int32{1, 2, 3} {
+				got := map[string]int{}
+				km, vm, empty := "", "", ""
+				pages := 0
+				verdict := ""
+				for {
+					mx := max
+					lv, err := st.B.ListObjectVersions(st.ctx(), &s3.ListObjectVersionsInput{Bucket: sp(c09Bucket), Prefix: &empty, Delimiter: &empty, KeyMarker: &km, VersionIdMarker: &vm, MaxKeys: &mx})
+					r.Add("evaluations", 1)
+					if err != nil {
+						verdict = "listing-error:" + errClassAPI(err)
+						break
+					}
+					pages++
+					for _, v := range lv.Versions {
+						got[getS(v.Key)+"|"+getS(v.VersionId)]++
+					}
+					for _, d := range lv.DeleteMarkers {
+						got[getS(d.Key)+"|"+getS(d.VersionId)]++
+					}
+					if lv.IsTruncated == nil || !*lv.IsTruncated {
+						break
+					}
+					km, vm = getS(lv.NextKeyMarker), getS(lv.NextVersionIdMarker)
+					if pages > len(want)+3 {
+						verdict = "pagination-does-not-terminate"
+						break
+					}
+				}
+				if verdict == "" {
+					for k, n := range want {
+						if got[k] < n {
+							verdict = "version-missing-from-the-walk"
+						}
+					}
+					for k, n := range got {
+						if n > want[k] && verdict == "" {
+							verdict = "version-listed-more-than-once"
+						}
+					}
+				}
+				r.Distinct(fmt.Sprintf("listing-traps|%s|%v|%s|%d", cfgName, keys, mode, max))
+				r.Outcome("listing-traps:" + orOK(verdict))
+				if verdict != "" {
+					r.Violation(ck.JoinSig("paged-list-versions", "sibling-sorts-before-slash", mode, verdict), map[string]any{"config": cfgName, "keys": usable, "mode": mode, "max-keys": max, "expected": fmt.Sprint(want), "collected": fmt.Sprint(got)})
+				}
+			}
+		}
+	}
 }
 
 // fileCounts: coarse implementation fingerprint (number of entries per directory level; no names).
